@@ -4,7 +4,7 @@
   find / findOne / count / estimatedCount / distinct / listIndexes / listCollections / listDatabases.
 -/
 import Lungo.Proofs.SeqAbs
-namespace Lungo.C01
+namespace Lungo.SeqRef
 open Lungo Lungo.Spec
 
 variable {sch : SchemaEval}
@@ -249,4 +249,4 @@ theorem refines_listDatabases (s : Sys) (q : Doc) (oids : List V) :
   | error e => rfl
   | ok l => simp [Except.map, commit_clean, byName]
 
-end Lungo.C01
+end Lungo.SeqRef
